@@ -23,8 +23,8 @@ def _load(text):
 
 def _neutralised(struct, dollar, slash):
     """(Section to print, structure its reload should give): the original
-    structure with the features of the two known defects taken out, '$'
-    written as '$$' in values and import names, 'x' appended to section
+    structure with the features of the two known defects taken out: '$'
+    replaced by 'S' in values and import names, 'x' appended to section
     types / names that end in '/'."""
     import ZConfig.schemaless as SL
 
@@ -33,22 +33,28 @@ def _neutralised(struct, dollar, slash):
             return n + "x"
         return n
 
+    def fix_text(v):
+        return v.replace("$", "S") if dollar else v
+
     def conv(st, top):
         sec = SL.Section(fix_name(st["type"]), fix_name(st["name"]))
         exp = {"type": sec.type, "name": sec.name, "keys": {},
                "sections": []}
         for k, vals in st["keys"].items():
-            exp["keys"][k] = list(vals)
-            sec[k] = [v.replace("$", "$$") if dollar else v for v in vals]
+            sec[k] = [fix_text(v) for v in vals]
+            exp["keys"][k] = list(sec[k])
         for sub in st["sections"]:
             s2, e2 = conv(sub, False)
             sec.sections.append(s2)
             exp["sections"].append(e2)
         if top:
-            exp["imports"] = list(st["imports"])
-            if st["imports"]:
-                sec.imports = tuple(i.replace("$", "$$") if dollar else i
-                                    for i in st["imports"])
+            imports = []
+            for i in st["imports"]:
+                if fix_text(i) not in imports:
+                    imports.append(fix_text(i))
+            exp["imports"] = imports
+            if imports:
+                sec.imports = tuple(imports)
         return sec, exp
 
     return conv(struct, True)
